@@ -262,7 +262,7 @@ class ScribbleExec(O.Exec):
             if "unk" in src:
                 kw["unknown_handling"] = O.UNKS[src["unk"]]
             if src.get("ff") is not None:
-                kw["filterfunc"] = C.NB_FILTERS[src["ff"]]
+                kw["filterfunc"] = C.nb_filter(src["ff"])
             return helpers.neighbors(self.g(src["v"]), **kw)
         if k == "find_links":
             kw = {}
